@@ -37,7 +37,8 @@ theorem extIds_spec (gc : Int) (rs : List (Nat × Nat)) (ids : List Int) (h : ex
 
 /-- the child a kid becomes -/
 def KidRel (exts : List DExt) (gc base : Int) (k : DSig) (c : Child) : Prop :=
-  c.name = k.name ∧ c.rel = sigPos k - base ∧ c.size = (k.size : Int) ∧ GroupsAsFile exts gc k c.gids
+  c.name = k.name ∧ c.rel = sigPos k - base ∧ c.size = (k.size : Int) ∧ GroupsAsFile exts gc k c.gids ∧
+  c.isMux = k.isMultiplexor
 
 theorem groupsAsFile_of (exts : List DExt) (gc : Int) (k : DSig) (ids0 gids : List Int)
     (hk : kidIds exts gc k = .ok ids0)
@@ -100,7 +101,7 @@ theorem addKids_spec (exts : List DExt) (gc gs base : Int) : ∀ (kids : List DS
           have := hpos k (List.mem_cons_self ..)
           omega
         obtain ⟨c', hcs1, hn, hrel, hsz, hg1, hg2, hw1, hi1, hn1⟩ :=
-          muxInsert_spec gc gs cs cs1 ⟨k.name, sigPos k - base, k.size, ids0⟩ hins hkpos hinv.wf hinv.ids hinv.names
+          muxInsert_spec gc gs cs cs1 ⟨k.name, sigPos k - base, k.size, ids0, k.isMultiplexor⟩ hins hkpos hinv.wf hinv.ids hinv.names
         have hinv1 : KidsInv gc gs cs1 := by
           refine ⟨hw1, hi1, hn1, ?_⟩
           intro c hc
@@ -115,7 +116,7 @@ theorem addKids_spec (exts : List DExt) (gc gs base : Int) : ∀ (kids : List DS
         refine ⟨c' :: new, ?_, ?_, hinv'⟩
         · rw [hcs', hcs1]; simp
         · refine List.Forall₂.cons ⟨hn, hrel, hsz, ?_⟩ hfa
-          exact groupsAsFile_of exts gc k ids0 c'.gids hk hg1 hg2
+          exact ⟨groupsAsFile_of exts gc k ids0 c'.gids hk hg1 hg2, muxInsert_isMux gc gs cs cs1 _ c' hins hcs1⟩
 
 theorem maxEnd_ge (kids : List DSig) : ∀ acc : Int, acc ≤ maxEnd kids acc ∧
     ∀ k ∈ kids, (k.size : Int) + sigPos k ≤ maxEnd kids acc := by
